@@ -69,13 +69,17 @@ def gen_value(rng, kind):
             return x
 
 
-def gen_layout(rng, n_src, k_other, needed, fixed_pattern, order, ns_fixed=False, on_grid=False):
+def gen_layout(rng, n_src, k_other, needed, fixed_pattern, order, ns_fixed=False, on_grid=False, assign=None):
     """declarations: ns (global name 0 -> local name 1 on all sources) and k_other parameters
     (global names 5..) feeding the local names in `needed` for every source"""
     others = [{'name': 5 + i, 'fixed': fixed_pattern[i], 'val': gen_value(rng, 'grid' if on_grid and i == 0 else 'off'),
                'names': [None] * n_src} for i in range(k_other)]
     for s in range(n_src):
         inj = rng.sample(range(k_other), len(needed)) if k_other >= len(needed) else []
+        if assign is not None:
+            # forced per-source alias: source s takes needed[0] from parameter assign[s]
+            rest = [i for i in range(k_other) if i != assign[s]]
+            inj = [assign[s]] + rng.sample(rest, len(needed) - 1)
         for L, pi in zip(needed, inj):
             others[pi]['names'][s] = L
     for o in others:
@@ -93,7 +97,7 @@ def gen_layout(rng, n_src, k_other, needed, fixed_pattern, order, ns_fixed=False
     return decls
 
 
-def gen_dataset(rng, n_src, needed, regime, methods):
+def gen_dataset(rng, n_src, needed, regime, methods, kinds=None):
     n_sel = rng.randint(2, 7)
     n_raw = n_sel + rng.randint(0, 2)
     keep = sorted(rng.sample(range(n_raw), n_sel))
@@ -115,7 +119,8 @@ def gen_dataset(rng, n_src, needed, regime, methods):
         sig = [round(rng.uniform(1e-7, 1e-6), 12) for _ in pairs]
     else:
         sig = [round(rng.uniform(0.1, 6.0), 6) for _ in pairs]
-    er = [(L, methods[i % len(methods)], rng.randint(0, 50)) for i, L in enumerate(needed)]
+    er = [(L, methods[i % len(methods)], rng.randint(0, 50), (kinds[i % len(kinds)] if kinds else rng.choice(['i3', 'sigset'])))
+          for i, L in enumerate(needed)]
     return {'n_raw': n_raw, 'N': N, 'keep': keep, 'pairs': pairs, 'bkg': bkg, 'sig': sig, 'eratios': er}
 
 
@@ -130,7 +135,8 @@ def gen_case(ctx, rng, spec=None):
     regime = spec.get('regime', 'taylor' if rng.random() < 0.08 else 'stable')
     on_grid = spec.get('on_grid', rng.random() < 0.12)
     ns_fixed = spec.get('ns_fixed', False)
-    decls = gen_layout(rng, n_src, k_other, needed, fixed_pattern, order, ns_fixed=ns_fixed, on_grid=on_grid)
+    decls = gen_layout(rng, n_src, k_other, needed, fixed_pattern, order, ns_fixed=ns_fixed, on_grid=on_grid,
+                        assign=spec.get('assign'))
     if spec.get('dup'):
         # malformed: a second parameter under an already used local name of source 0
         decls.append({'name': 9, 'fixed': False, 'val': 2.0, 'names': [1] + [None] * (n_src - 1)})
@@ -143,7 +149,12 @@ def gen_case(ctx, rng, spec=None):
     groups = [(n, rng.choice(needed + [None]) if needed else None) for n in sizes]
     n_ds = 1 if regime == 'taylor' else spec.get('n_ds', rng.choice([1, 2, 2, 3]))
     methods = spec.get('methods', rng.choice([['linear'], ['parabola'], ['linear', 'parabola'], ['parabola', 'linear']]))
-    datasets = [gen_dataset(rng, n_src, needed, regime, methods) for _ in range(n_ds)]
+    datasets = [gen_dataset(rng, n_src, needed, regime, methods, spec.get('kinds')) for _ in range(n_ds)]
+    for dsd in datasets:
+        for e in dsd['eratios']:
+            ctx.count('ratio_kind:' + e[3])
+    if spec.get('assign') is not None:
+        ctx.count('forced_alias_same_interp_param')
     vec = []
     for d in decls:
         if not d['fixed']:
@@ -231,7 +242,21 @@ def canon_model(v, n_values=0):
                 r.append([isloc, mask if mask is not None else 'none'])
         pf.append(r)
     out['perfid'] = pf
-    out['sigkeys'] = [list(k) for k in sigkeys]
+    sp = []
+    for row in sigkeys:          # per name set, per fid: (contributes, (isall, parts))
+        r = []
+        for (contrib, (isall, parts)) in row:
+            if not contrib:
+                r.append('none')
+            elif isall:
+                r.append([True] * n_values)
+            else:
+                mask = [False] * n_values
+                for (_p, m) in parts:
+                    mask = [a or b for a, b in zip(mask, m)]
+                r.append(mask)
+        sp.append(r)
+    out['sigpat'] = sp
     keys = {}
     n_src = None
     for (k, (start, mask)) in kms:
@@ -309,21 +334,51 @@ def observe_impl(ctx, case, W):
         pf.append(row)
     out['perfid'] = pf
     # SignalMultiDimGridPDFSet.get_pd: the real method on a minimal carrier object
-    sk = []
+    sp = []
+    val_src = [int(k) for k in tdm.src_evt_idxs[0]]
     for pn in pnames_sets(case):
         names_l = [I.local_name(n) for n in pn]
         nval = tdm.get_n_values()
+        garr = np.array([[1.0 + i + 0.01 * v for v in range(nval)] for i in range(len(names_l))])
         fake = types.SimpleNamespace(
             _cfg=types.SimpleNamespace(is_tracing_enabled=False), pmm=W.pmm, _interpol_param_names=names_l,
             _cache_eventdata=None,
-            _interpol_method=lambda tdm, eventdata, params_recarray, tl=None: (
-                np.ones(nval), np.array([[1.0 + i] * nval for i in range(len(names_l))])))
+            _interpol_method=lambda tdm, eventdata, params_recarray, tl=None: (np.ones(nval), garr.copy()))
         try:
             (_pd, gd) = SignalMultiDimGridPDFSet.get_pd(fake, tdm=tdm, params_recarray=rec)
-            sk.append(sorted(int(k) for k in gd.keys()))
         except Exception as ex:      # noqa: BLE001
-            sk.append(['Err', exc_kind(ex)])
-    out['sigkeys'] = sk
+            sp.append(['Err', exc_kind(ex)])
+            continue
+        row = []
+        keys = sorted(gd.keys())
+        for a_i, ka in enumerate(keys):
+            for kb in keys[a_i + 1:]:
+                if np.shares_memory(gd[ka], gd[kb]):
+                    ctx.violation('SignalMultiDimGridPDFSet.get_pd', 'gradient-entries-share-memory',
+                                  f'grads[{ka}] and grads[{kb}] are the same buffer', case=case,
+                                  impl=[int(ka), int(kb)], predicate='one array per fit parameter')
+        for fid in range(nfl):
+            # independent oracle: entry v belongs to fid iff the source of v takes one of the
+            # interpolation parameters from the fid-th floating parameter
+            want = np.zeros(nval)
+            for i, nm_l in enumerate(names_l):
+                if nm_l in rec.dtype.names:
+                    for v in range(nval):
+                        if rec[nm_l + ':gpidx'][val_src[v]] == fid + 1:
+                            want[v] = garr[i][v]
+            got = gd.get(fid)
+            if got is None:
+                got = np.zeros(nval)
+                row.append('none')
+            else:
+                row.append([bool(x) for x in (got != 0)])
+            if not np.array_equal(np.asarray(got, dtype=float), want):
+                ctx.violation('SignalMultiDimGridPDFSet.get_pd', 'gradient-misattached',
+                              f'grads[{fid}] for interpolation parameters {names_l}', case=case,
+                              impl=[float(x) for x in got], model=[float(x) for x in want],
+                              predicate='grads[fid][v] = d pd_v / d(local parameter) where source(v) takes it from fid, else 0')
+        sp.append(row)
+    out['sigpat'] = sp
     keys = {}
     for k, arr in a_grads.items():
         keys[str(int(k))] = sorted(int(i) for i in np.nonzero(arr[0])[0])
@@ -340,7 +395,7 @@ def observe_impl(ctx, case, W):
 def same_layout(impl, model):
     if isinstance(impl, list) or isinstance(model, list):
         return impl == model
-    for k in ('names', 'cols', 'sigkeys', 'akeys', 'fcols', 'ns_idx'):
+    for k in ('names', 'cols', 'sigpat', 'akeys', 'fcols', 'ns_idx'):
         if impl[k] != model[k]:
             return False
     if len(impl['perfid']) != len(model['perfid']):
@@ -449,6 +504,129 @@ def fd_predicates(ctx, case, W, impl_layout):
     return len(grads)
 
 
+def history_probes(ctx, case, W):
+    """metamorphic history probes on the REAL llh-ratio objects (tools/HARDENING.md): the value,
+    the gradient vector and calculate_ns_grad2 must be functions of the current point only."""
+    if any(W.map_errors) or case['regime'] != 'stable':
+        return
+    fl = [d for d in case['decls'] if not d['fixed']]
+    if not any(d['name'] == 0 for d in fl) or len(case['vec']) != len(fl):
+        return
+    ns_i = [k for k, d in enumerate(fl) if d['name'] == 0][0]
+    p1 = list(case['vec'])
+    others = [k for k in range(len(fl)) if k != ns_i]
+    p2 = list(p1)                      # same ns, another floating parameter moved
+    for k in others:
+        p2[k] = p1[k] + 0.0625 + 0.03125 * k
+    p3 = list(p1)
+    p3[ns_i] = p1[ns_i] + 0.5          # other ns
+    p0 = list(p2)
+    p0[ns_i] = 0.0                     # the lower bound: ns*f_j repeats whatever f_j is
+    q0 = list(p1)
+    q0[ns_i] = 0.0
+    ctx.count('history_probes')
+
+    def multi_g2(Wx, pt):
+        rec = Wx.pmm.create_src_params_recarray(np.array(pt))
+        return float(Wx.multi.calculate_ns_grad2(ns=pt[ns_i], ns_pidx=ns_i, src_params_recarray=rec))
+
+    def fresh(pt, single=None):
+        Wf = I.make_world(case)
+        if single is None:
+            r = I.evaluate_multi(Wf, pt)
+            return r, multi_g2(Wf, pt)
+        r = I.evaluate_single(Wf, single, pt)
+        return r, float(Wf.llh[single].calculate_ns_grad2(ns=pt[ns_i]))
+
+    def close(a, b):
+        return abs(a - b) <= 1e-9 * max(abs(a), abs(b)) + 1e-12
+
+    def same_eval(r, q):
+        return close(r[0], q[0]) and len(r[1]) == len(q[1]) and all(close(x, y) for x, y in zip(r[1], q[1]))
+
+    try:
+        # ---- multi-dataset object: repeat / interleave / arguments-are-inputs / results owned by caller
+        arg = np.array(p1, dtype=np.float64)
+        snap = arg.copy()
+        (v1, g1) = W.multi.evaluate(arg)
+        keep = np.array(g1, copy=True)
+        (v1b, g1b) = W.multi.evaluate(arg)
+        if not np.array_equal(arg, snap):
+            ctx.violation('MultiDatasetTCLLHRatio.evaluate', 'argument-modified', 'fitparam_values changed by evaluate', case=case)
+        if np.shares_memory(g1, g1b):
+            ctx.violation('MultiDatasetTCLLHRatio.evaluate', 'result-shares-memory', 'gradient arrays of two calls share memory', case=case)
+        if float(v1) != float(v1b) or not np.array_equal(g1, g1b):
+            ctx.violation('MultiDatasetTCLLHRatio.evaluate', 'history:repeat-differs', 'same point twice, different result',
+                          case=case, impl=[float(v1), float(v1b)])
+        ga = multi_g2(W, p1)
+        r2 = I.evaluate_multi(W, p2)
+        if not np.array_equal(g1, keep):
+            ctx.violation('MultiDatasetTCLLHRatio.evaluate', 'result-overwritten', 'gradient of an earlier call changed', case=case)
+        gb = multi_g2(W, p2)                       # same ns as the call before, other point
+        (f2, f2g2) = fresh(p2)
+        if not same_eval(r2, f2):
+            ctx.violation('MultiDatasetTCLLHRatio.evaluate', 'history:differs-from-fresh', 'evaluate(p1); evaluate(p2) != fresh evaluate(p2)',
+                          case={'case': case, 'sequence': [p1, p2]}, impl=r2, model=f2)
+        if not close(gb, f2g2):
+            ctx.violation('MultiDatasetTCLLHRatio.calculate_ns_grad2', 'history:stale-second-derivative',
+                          'evaluate(p1); ns_grad2(ns); evaluate(p2); ns_grad2(ns) differs from a fresh object at p2',
+                          case={'case': case, 'sequence': [p1, p2]}, impl=gb, model=f2g2,
+                          predicate='ns_grad2 is a function of the current point only')
+        r1c = I.evaluate_multi(W, p1)              # interleave: back to p1
+        if not same_eval(r1c, (float(v1), [float(x) for x in keep])):
+            ctx.violation('MultiDatasetTCLLHRatio.evaluate', 'history:interleave-differs', 'p1, p2, p1: third differs from first',
+                          case={'case': case, 'sequence': [p1, p2, p1]}, impl=r1c)
+        if not close(multi_g2(W, p1), ga):
+            ctx.violation('MultiDatasetTCLLHRatio.calculate_ns_grad2', 'history:stale-second-derivative', 'p1, p2, p1', case=case)
+        # the bound ns = 0 (per-dataset argument 0*f_j repeats for every parameter point)
+        I.evaluate_multi(W, q0)
+        multi_g2(W, q0)
+        I.evaluate_multi(W, p0)
+        gz = multi_g2(W, p0)
+        (_fz, fz2) = fresh(p0)
+        if not close(gz, fz2):
+            ctx.violation('MultiDatasetTCLLHRatio.calculate_ns_grad2', 'history:stale-second-derivative',
+                          'at ns = 0 after a visit of ns = 0 at another parameter point',
+                          case={'case': case, 'sequence': [q0, p0]}, impl=gz, model=fz2)
+        # ---- every single-dataset object: the same sequence, ns_grad2 against FD of the ns-gradient at the CURRENT point
+        for j in range(len(W.llh)):
+            for (a, b) in ((p1, p2), (p2, p3), (p3, p1)):
+                I.evaluate_single(W, j, a)
+                W.llh[j].calculate_ns_grad2(ns=a[ns_i])
+                rb = I.evaluate_single(W, j, b)
+                g2 = float(W.llh[j].calculate_ns_grad2(ns=b[ns_i]))
+                g2r = float(W.llh[j].calculate_ns_grad2(ns=b[ns_i]))
+                if g2 != g2r:
+                    ctx.violation('ZeroSigH0SingleDatasetTCLLHRatio.calculate_ns_grad2', 'history:repeat-differs', 'two calls in a row', case=case)
+
+                def gns(x, j=j, b=b):
+                    v = list(b)
+                    v[ns_i] = x
+                    return I.evaluate_single(W, j, v)[1][ns_i]
+                fd2 = richardson(gns, b[ns_i], 1e-3)
+                I.evaluate_single(W, j, b)
+                ctx.count('history_grad2_checks')
+                if abs(fd2 - g2) > 2e-5 * max(abs(fd2), abs(g2)) + 1e-8:
+                    ctx.violation('ZeroSigH0SingleDatasetTCLLHRatio.calculate_ns_grad2', 'history:stale-second-derivative',
+                                  f'after evaluate({a}); ns_grad2; evaluate({b}): {g2!r}, finite difference of the ns-gradient at the current point {fd2!r}',
+                                  case={'case': case, 'sequence': [a, b], 'dataset': j}, impl=g2, model=fd2,
+                                  predicate='ns_grad2 = d grads[ns] / d ns at the point of the last evaluate')
+            (fr, frg2) = fresh(p1, single=j)
+            r = I.evaluate_single(W, j, p1)
+            if not same_eval(r, fr) or not close(float(W.llh[j].calculate_ns_grad2(ns=p1[ns_i])), frg2):
+                ctx.violation('ZeroSigH0SingleDatasetTCLLHRatio.evaluate', 'history:differs-from-fresh', 'after a sequence of points',
+                              case={'case': case, 'dataset': j}, impl=r, model=fr)
+        # ---- new trial: the same object re-initialised equals a fresh one
+        for llh in W.llh:
+            llh.initialize_for_new_trial()
+        rn = I.evaluate_multi(W, p2)
+        if not same_eval(rn, f2) or not close(multi_g2(W, p2), f2g2):
+            ctx.violation('MultiDatasetTCLLHRatio.evaluate', 'history:differs-from-fresh', 'after initialize_for_new_trial',
+                          case={'case': case}, impl=rn, model=f2)
+    except Exception as ex:      # noqa: BLE001
+        ctx.violation('history_probes', 'raises-' + exc_kind(ex), str(ex), case=case)
+
+
 # ------------------------------------------------------------------ driver
 def corpus_cases(ctx, rng):
     """regression corpus: the layouts of the two repaired defects (known_findings `fixed`):
@@ -462,6 +640,19 @@ def corpus_cases(ctx, rng):
                  {'n_src': 3, 'k_other': 2, 'n_needed': 1, 'fixed': [False, False], 'order': 0, 'regime': 'stable', 'on_grid': False, 'n_ds': 1}):
         out.append(gen_case(ctx, rng, spec))
     return out
+
+
+def alias_specs():
+    """two or three floating parameters aliased to the SAME interpolation parameter, each on a proper
+    subset of >= 2 sources (disjoint by construction: map_param rejects a second parameter under the
+    same local name of a source), both interpolation methods, through the real signal PDF set"""
+    for (n_src, k, assign) in ((2, 2, [0, 1]), (2, 2, [1, 0]), (3, 2, [0, 0, 1]), (3, 2, [0, 1, 0]),
+                               (3, 3, [0, 1, 2]), (3, 3, [2, 0, 1]), (3, 3, [0, 0, 1])):
+        for meth in ('linear', 'parabola'):
+            for kind in ('sigset', 'i3'):
+                for n_needed in ((1,) if k == 2 else (1, 2)):
+                    yield {'n_src': n_src, 'k_other': k, 'n_needed': n_needed, 'fixed': [False] * k, 'assign': assign,
+                           'methods': [meth], 'kinds': [kind], 'regime': 'stable', 'on_grid': False}
 
 
 def enumerated_specs():
@@ -489,6 +680,8 @@ def process(ctx, cases, tag):
         if isinstance(lay, dict):
             n = fd_predicates(ctx, c, W, lay)
             lay['glen'] = n
+            if c.get('probe', True):
+                history_probes(ctx, c, W)
         impls.append(lay)
         exprs.append(model_expr(c))
     if not ctx.model_ok:
@@ -519,6 +712,10 @@ def run(ctx):
     specs = list(enumerated_specs())
     if not ctx.thorough():
         specs = [s for i, s in enumerate(specs) if i % 5 == 0]
+    al = list(alias_specs())
+    if not ctx.thorough():
+        al = [s for s in al if s['kinds'] == ['sigset'] or s['assign'] in ([0, 1], [0, 0, 1])]
+    specs = al + specs
     for s in specs:
         cases.append(gen_case(ctx, rng, dict(s)))
     n_random = ctx.budget(40, 700)
